@@ -25,8 +25,9 @@ Inductive axis : Type :=
 Inductive ntest : Type :=
 | TName (pfx : option bytes) (name : bytes)
 | TStar (pfx : option bytes)
-| TNode
-| TText.
+| TNode                                  (* node() *)
+| TText                                  (* text() *)
+| TAny.                                  (* the node test of the abbreviations "." and ".." (= node()) *)
 
 Inductive cmpop : Type := CEq | CNe | CLt | CLe | CGt | CGe.
 Inductive arop : Type := AAdd | ASub | AMul | ADiv | AMod.
@@ -84,20 +85,26 @@ Record flags : Type := {
   f_cmpbool : bool;       (* moveto_op_comp(): node-set vs boolean compared item by item *)
   f_canon : bool;         (* set_comp_canonize(): string operand canonized by the type of the compared node *)
   f_fast : bool;          (* eval_name_test_try_compile_predicates(): key predicates answered by a string lookup *)
-  f_nsaxis : bool         (* the namespace axis is a syntax error *)
+  f_nsaxis : bool;        (* the namespace axis is a syntax error *)
+  f_attrnode : bool;      (* moveto_node(): assert(0) for attribute::node() *)
+  f_nonset : bool;        (* a step after a non-node-set: assert in moveto_resolve_model() for a name test,
+                             empty node-set instead of an error for node() (xpath_pi_node) *)
+  f_alldup : bool;        (* moveto_node_alldesc_child(): a node that is also a start node is inserted twice *)
+  f_skip : bool           (* xpath_pi_node() ignores LYXP_SKIP_EXPR: a skipped operand of or/and containing
+                             "//" + a non-child axis + a name test empties the accumulated result *)
 }.
 
 Definition spec_flags : flags :=
   {| f_prec := 53; f_n2s := false; f_s2n := false; f_floor := false; f_bytes := false; f_strval := false;
      f_predtrunc := false; f_predglobal := false; f_following := false; f_preceding := false; f_rootstar := false;
      f_text := false; f_dslash := false; f_assert := false; f_crash := false; f_cmpbool := false; f_canon := false;
-     f_fast := false; f_nsaxis := false |}.
+     f_fast := false; f_nsaxis := false; f_attrnode := false; f_nonset := false; f_alldup := false; f_skip := false |}.
 
 Definition impl_flags : flags :=
   {| f_prec := 64; f_n2s := true; f_s2n := true; f_floor := true; f_bytes := true; f_strval := true;
      f_predtrunc := true; f_predglobal := true; f_following := true; f_preceding := true; f_rootstar := true;
      f_text := true; f_dslash := true; f_assert := true; f_crash := true; f_cmpbool := true; f_canon := true;
-     f_fast := true; f_nsaxis := true |}.
+     f_fast := true; f_nsaxis := true; f_attrnode := true; f_nonset := true; f_alldup := true; f_skip := true |}.
 
 (* error classes *)
 Definition E_TYPE : N := 7.        (* LY_EVALID: wrong operand / argument type, unknown function, wrong arity *)
@@ -185,7 +192,7 @@ Definition item_mod (it : item) : option bytes :=
 
 Definition node_test (fl : flags) (nt : ntest) (c m : item) : bool :=
   match nt with
-  | TNode => true
+  | TNode | TAny => true
   | TText => is_itext m
   | TStar None => is_ielem m || (f_rootstar fl && match m with IRoot => true | _ => false end)
   | TStar (Some p) => match m with IElem y => beq_bytes (ni_mod (x_info y)) p | _ => false end
@@ -212,6 +219,17 @@ Definition nonchild_axis (ax : axis) : bool :=
   match ax with
   | AxChild | AxSelf | AxAttribute | AxNamespace => false
   | _ => true
+  end.
+
+Definition is_ns_axis (ax : axis) : bool := match ax with AxNamespace => true | _ => false end.
+Definition is_attr_axis (ax : axis) : bool := match ax with AxAttribute => true | _ => false end.
+Definition is_child_axis (ax : axis) : bool := match ax with AxChild => true | _ => false end.
+
+(* as coded (xpath_pi_text): a term node of the context set is replaced by its text node *)
+Definition text_of_item (c : item) : list item :=
+  match c with
+  | IElem n => if is_term n then [IText n] else []
+  | _ => []
   end.
 
 (* the items selected from context item c, in document order *)
@@ -513,6 +531,49 @@ Definition inst_matches (t : list xnode) (n : xnode) (keys : list bytes) (vals :
                      | None => false
                      end) (combine keys vals).
 
+(* does the expression use the namespace axis anywhere (as coded: rejected when the expression is parsed) *)
+Fixpoint uses_ns (e : expr) : bool :=
+  match e with
+  | ERoot | ECtx | ELit _ | ENum _ | EFun0 _ => false
+  | EStep base _ ax _ ps => uses_ns base || match ax with AxNamespace => true | _ => false end || uses_ns_p ps
+  | EFilter e' ps => uses_ns e' || uses_ns_p ps
+  | EOr a b | EAnd a b | ECmp _ a b | EArith _ a b | EUnion a b | EFun2 _ a b => uses_ns a || uses_ns b
+  | ENeg a | EFun1 _ a => uses_ns a
+  | EFun3 _ a b c => uses_ns a || uses_ns b || uses_ns c
+  end
+with uses_ns_p (ps : preds) : bool :=
+  match ps with
+  | PNil => false
+  | PCons p r => uses_ns p || uses_ns_p r
+  end.
+
+(* as coded: a step "//" + axis other than child/attribute + name test anywhere in e: parsing it in skip mode
+   calls xpath_pi_node(), which frees the set it is given *)
+Fixpoint skip_clobbers (e : expr) : bool :=
+  match e with
+  | ERoot | ECtx | ELit _ | ENum _ | EFun0 _ => false
+  | EStep base ds ax nt ps =>
+      skip_clobbers base || skip_clobbers_p ps ||
+      (ds && match ax with AxChild | AxAttribute | AxNamespace => false | _ => true end &&
+       match nt with TName _ _ | TStar _ => true | _ => false end)
+  | EFilter e' ps => skip_clobbers e' || skip_clobbers_p ps
+  | EOr a b | EAnd a b | ECmp _ a b | EArith _ a b | EUnion a b | EFun2 _ a b => skip_clobbers a || skip_clobbers b
+  | ENeg a | EFun1 _ a => skip_clobbers a
+  | EFun3 _ a b c => skip_clobbers a || skip_clobbers b || skip_clobbers c
+  end
+with skip_clobbers_p (ps : preds) : bool :=
+  match ps with
+  | PNil => false
+  | PCons p r => skip_clobbers p || skip_clobbers_p r
+  end.
+
+(* non-decreasing keys (set_sort() finds nothing to swap) *)
+Fixpoint sorted_weak_from (k : N) (l : list item) : bool :=
+  match l with
+  | [] => true
+  | it :: r => (k <=? item_key it) && sorted_weak_from (item_key it) r
+  end.
+
 Section Eval.
   Variable fl : flags.
   Variable t : list xnode.
@@ -589,6 +650,27 @@ Section Eval.
   Definition step_union (ax : axis) (nt : ntest) (S : list item) : list item :=
     filter (fun m => existsb (fun c => axis_rel fl ax c m && node_test fl nt c m) S) (all_items t).
 
+  (* as coded: moveto_node_alldesc_child() - from every child c1 of the context nodes a DFS collects the matching
+     nodes; below a matching node that is itself one of the start nodes the DFS does not descend (it is "processed
+     later"), but that node has been inserted already and is inserted again as a start node *)
+  Definition alldesc_coded (nt : ntest) (C1 : list item) : list item :=
+    flat_map (fun st =>
+      match st with
+      | IElem sn =>
+          filter (fun m =>
+            match m with
+            | IElem y =>
+                ((x_id sn =? x_id y) || in_subtree sn y) && node_test fl nt st m &&
+                negb (existsb (fun z => match z with
+                                        | IElem zn => negb (x_id zn =? x_id sn) && in_subtree sn zn &&
+                                                      node_test fl nt st z && in_subtree zn y
+                                        | _ => false
+                                        end) C1)
+            | _ => false
+            end) (all_items t)
+      | _ => []
+      end) C1.
+
   (* as coded: does the step qualify for the key lookup? first selected instance and its key names *)
   Definition fast_pre (ax : axis) (ds : bool) (nt : ntest) (ps : preds) (all : list item) : option (xnode * list bytes) :=
     if negb (f_fast fl) || ds then None
@@ -606,6 +688,77 @@ Section Eval.
       | _, _, _ => None
       end.
 
+  (* one step "base/axis::test[preds]" (or "base//...") from the context set S0.
+     [ap nca rv skip l] applies the predicates of the step to the candidate list l (eval's apply_preds);
+     [fastp] / [fastv] are the as-coded key lookup of the step (fast_pre, fast_vals). *)
+  Definition step_body (nca0 : bool) (S0 : list item) (ds : bool) (ax : axis) (nt : ntest)
+             (ap : bool -> bool -> nat -> list item -> res (list item))
+             (fastp : list item -> option (xnode * list bytes))
+             (fastv : xnode -> list bytes -> option (list bytes)) : res value :=
+    if is_ns_axis ax then (if f_nsaxis fl then Err E_TYPE else Ok (VSet []))
+    else if is_attr_axis ax then
+      (* no metadata in the modelled trees: the attribute axis is empty *)
+      (if f_attrnode fl && match nt with TNode => true | _ => false end && match S0 with [] => false | _ => true end
+       then Err E_ASSERT else Ok (VSet []))
+    else
+      (* "//" = /descendant-or-self::node()/ ; as coded ignored before a node type test, and before a
+         name test on the child axis done by moveto_node_alldesc_child() which first moves to the children *)
+      let is_type := match nt with TNode | TText => true | _ => false end in
+      let ds_eff := ds && negb (f_dslash fl && is_type) in
+      let alldesc_child := ds_eff && is_child_axis ax in
+      bind (if ds_eff && (f_assert fl || f_crash fl) then
+              if alldesc_child then step_checks nca0 AxChild TNode S0
+              else step_checks nca0 AxDescendantOrSelf TNode S0
+            else Ok tt) (fun _ =>
+      let S := if ds_eff then step_union AxDescendantOrSelf TNode S0 else S0 in
+      let nca1 := nca0 || (ds_eff && negb alldesc_child) in
+      let nca2 := nca1 || nonchild_axis ax in
+      if f_text fl && match nt with TText => true | _ => false end then
+        (* xpath_pi_text(): on the child axis the term nodes of the context set become their text nodes *)
+        bind (ap nca2 false 0%nat (if is_child_axis ax then flat_map text_of_item S else []))
+             (fun l => Ok (VSet l))
+      else
+      bind (if (f_assert fl || f_crash fl) && negb alldesc_child then step_checks nca1 ax nt S else Ok tt) (fun _ =>
+      if f_predglobal fl then
+        let is_name := match nt with TName _ _ | TStar _ => true | _ => false end in
+        let dup_mode := f_alldup fl && alldesc_child && is_name in
+        let all := if dup_mode then alldesc_coded nt (step_union AxChild TNode S0) else step_union ax nt S in
+        (* asserts of the debug build: a duplicate cannot be inserted into the hash table a set has from its
+           4th item on (set_insert_node_hash); the final set must not need sorting *)
+        if dup_mode && f_assert fl &&
+           (negb (match all with [] => true | it :: r => sorted_weak_from (item_key it) r end) ||
+            ((4 <=? length all)%nat && negb (length (dedupe all []) =? length all)%nat))
+        then Err E_ASSERT else
+        let generic := bind (ap nca2 (reverse_axis ax) 0%nat all) (fun l => Ok (VSet l)) in
+        match fastp all with
+        | Some (n0, keys) =>
+            match fastv n0 keys with
+            | Some vs =>
+                bind (ap nca2 false (length keys)
+                        (filter (fun m => match m with IElem n => inst_matches t n keys vs | _ => false end) all))
+                     (fun l => Ok (VSet l))
+            | None => generic
+            end
+        | None => generic
+        end
+      else
+        (* XPath 1.0 section 2.1: for each context node the axis and node test give the candidates, the predicates
+           filter them with positions along the axis; the step selects the union *)
+        bind (fold_res (fun acc c =>
+                          bind (ap nca2 (reverse_axis ax) 0%nat (cands fl t ax nt c))
+                               (fun l => Ok (merge_items acc l))) S [])
+             (fun l => Ok (VSet l)))).
+
+  (* as coded: a step applied to something that is not a node-set *)
+  Definition step_nonset (nt : ntest) : res value :=
+    if f_nonset fl then
+      match nt with
+      | TName _ _ | TStar (Some _) => Err E_ASSERT
+      | TNode => Ok (VSet [])
+      | _ => Err E_TYPE
+      end
+    else Err E_TYPE.
+
   Fixpoint eval (cx : ectx) (e : expr) {struct e} : res value :=
     match e with
     | ERoot => Ok (VSet [IRoot])
@@ -614,56 +767,11 @@ Section Eval.
         bind (eval cx base) (fun bv =>
         match bv with
         | VSet S0 =>
-            let nca0 := nca_of base (c_nca cx) in
-            match ax with
-            | AxNamespace => if f_nsaxis fl then Err E_TYPE else Ok (VSet [])
-            | _ =>
-              (* "//" = /descendant-or-self::node()/ ; as coded ignored before a node type test, and before a
-                 name test on the child axis done by moveto_node_alldesc_child() which first moves to the children *)
-              let is_type := match nt with TNode | TText => true | _ => false end in
-              let ds_eff := ds && negb (f_dslash fl && is_type) in
-              let alldesc_child := ds_eff && match ax with AxChild => true | _ => false end in
-              bind (if ds_eff && (f_assert fl || f_crash fl) then
-                      if alldesc_child then step_checks nca0 AxChild TNode S0
-                      else step_checks nca0 AxDescendantOrSelf TNode S0
-                    else Ok tt) (fun _ =>
-              let S := if ds_eff then step_union AxDescendantOrSelf TNode S0 else S0 in
-              let nca1 := nca0 || (ds_eff && negb alldesc_child) in
-              let nca2 := nca1 || nonchild_axis ax in
-              if f_text fl && match nt with TText => true | _ => false end then
-                (* xpath_pi_text(): on the child axis the term nodes of the context set become their text nodes *)
-                bind (apply_preds cx nca2 false 0 ps
-                        (match ax with
-                         | AxChild => flat_map (fun c => match c with
-                                                         | IElem n => if is_term n then [IText n] else []
-                                                         | _ => []
-                                                         end) S
-                         | _ => []
-                         end))
-                     (fun l => Ok (VSet l))
-              else
-              bind (if (f_assert fl || f_crash fl) && negb alldesc_child then step_checks nca1 ax nt S else Ok tt) (fun _ =>
-              if f_predglobal fl then
-                let all := step_union ax nt S in
-                let generic := bind (apply_preds cx nca2 (reverse_axis ax) 0 ps all) (fun l => Ok (VSet l)) in
-                match fast_pre ax ds nt ps all with
-                | Some (n0, keys) =>
-                    match fast_vals cx n0 keys ps with
-                    | Some vs =>
-                        bind (apply_preds cx nca2 false (length keys) ps
-                                (filter (fun m => match m with IElem n => inst_matches t n keys vs | _ => false end) all))
-                             (fun l => Ok (VSet l))
-                    | None => generic
-                    end
-                | None => generic
-                end
-              else
-                bind (fold_res (fun acc c =>
-                                  bind (apply_preds cx nca2 (reverse_axis ax) 0 ps (cands fl t ax nt c))
-                                       (fun l => Ok (merge_items acc l))) S [])
-                     (fun l => Ok (VSet l))))
-            end
-        | _ => Err E_TYPE
+            step_body (nca_of base (c_nca cx)) S0 ds ax nt
+              (fun nca rv skip l => apply_preds cx nca rv skip ps l)
+              (fast_pre ax ds nt ps)
+              (fun n0 keys => fast_vals cx n0 keys ps)
+        | _ => step_nonset nt
         end)
     | EFilter e' ps =>
         bind (eval cx e') (fun v =>
@@ -672,11 +780,16 @@ Section Eval.
         | _ => Err E_TYPE
         end)
     | EOr a b =>
-        bind (eval cx a) (fun va => if to_bool va then Ok (VBool true)
+        bind (eval cx a) (fun va => if to_bool va then (if f_skip fl && skip_clobbers b then Ok (VSet []) else Ok (VBool true))
                                     else bind (eval cx b) (fun vb => Ok (VBool (to_bool vb))))
     | EAnd a b =>
-        bind (eval cx a) (fun va => if to_bool va then bind (eval cx b) (fun vb => Ok (VBool (to_bool vb)))
-                                    else Ok (VBool false))
+        (* a chain "x and y and z" is EAnd (EAnd x y) z and is evaluated operand by operand on one result set: when
+           (as coded) a skipped operand emptied that set, it is no longer the boolean false and the next operand is
+           evaluated *)
+        bind (eval cx a) (fun va =>
+          let emptied := f_skip fl && match a, va with EAnd _ _, VSet [] => true | _, _ => false end in
+          if to_bool va || emptied then bind (eval cx b) (fun vb => Ok (VBool (to_bool vb)))
+          else if f_skip fl && skip_clobbers b then Ok (VSet []) else Ok (VBool false))
     | ECmp op a b =>
         bind (eval cx a) (fun va => bind (eval cx b) (fun vb => Ok (VBool (cmp_values fl t op va vb))))
     | EArith op a b =>
@@ -754,5 +867,6 @@ Section Eval.
 
   (* the context of a top-level evaluation with context item c *)
   Definition top_ctx (c : item) : ectx := {| c_item := c; c_pos := 1; c_size := 1; c_cur := c; c_nca := false |}.
-  Definition eval_top (c : item) (e : expr) : res value := eval (top_ctx c) e.
+  Definition eval_top (c : item) (e : expr) : res value :=
+    if f_nsaxis fl && uses_ns e then Err E_TYPE else eval (top_ctx c) e.
 End Eval.
